@@ -364,8 +364,15 @@ package orb
 //@   pure
 
 // the winding of a ring is a deterministic function of its vertices (callable in contracts)
+// the winding is the sign of the origin-shifted shoelace sum folded left to right: counter-clockwise
+// exactly when it is > 0, clockwise exactly when it is < 0, otherwise (zero area, empty ring) 0
+//@ spec oshoe(r Ring, k int) float64 = ite(k < 1, 0.0, oshoe(r, k-1) + ((r[k][0] - r[0][0]) * (r[k+1][1] - r[0][1]) - (r[k+1][0] - r[0][0]) * (r[k][1] - r[0][1])))
 //@ func (Ring).Orientation(r)
+//@   floats abstract
 //@   function
+//@   ensures len(r) == 0 ==> result == 0
+//@   ensures len(r) >= 1 ==> result == ite(oshoe(r, len(r) - 2) > 0.0, 1, ite(oshoe(r, len(r) - 2) < 0.0, -1, 0))
+//@   loop 1: invariant 1 <= i && (i <= len(r) - 1 || len(r) < 2) && same(area, oshoe(r, i - 1)) && same(offsetX, r[0][0]) && same(offsetY, r[0][1])
 
 // a ring is closed when it has at least four vertices and the last repeats the first
 //@ func (Ring).Closed(r)
